@@ -1,5 +1,5 @@
 (* C05 — non-vacuity: concrete scripts and schedules meeting the theorems' hypotheses. *)
-From CJ Require Import Common.Base C05.Model C05.Proofs C05.Sched.
+From CJ Require Import Common.Base C05.Model C05.Proofs C05.Sched C05.ModelTcp C05.ProofsTcp C05.Run.
 
 Definition ab : bytes := [97; 98]. Definition c_ : bytes := [99].
 
@@ -61,4 +61,64 @@ Example blocked_closer :
   finished cblk = true /\ main cblk = MDone /\ wg cblk = O /\ gauge cblk = 0%Z /\
   closedA cblk = true /\ closedB cblk = true /\ clU cblk = CBlocked /\ clD cblk = CDone /\
   delivered (th_acc (up cblk)) = ab.
+Proof. vm_compute. repeat split. Qed.
+
+(* ---------------- the socket's send queue and the close mode ---------------- *)
+Definition d5 : bytes := [1; 2; 3; 4; 5].
+(* the station writes 5 bytes in two Writes, the peer has taken 2 of them when the tunnel is torn
+   down; afterwards 3 seconds pass and the peer takes the rest *)
+Definition pre5 : list ev := [Op (SWrite [1; 2; 3]); Deliver 2; Op (SWrite [4; 5])].
+Definition after5 : list ev := [Tick; Deliver 1; Tick; Tick; Op (SSetLinger 0); Op SClose; Deliver 7].
+
+(* hypotheses of C05_tcp_linger_close_delivers_everything are satisfiable with a non-empty queue ... *)
+Example linger10_hyps :
+  no_shutdown pre5 = true /\ s_q (srun sock0 pre5) = [3; 4; 5] /\
+  drained_before after5 linger_secs (length (s_q (srun sock0 pre5))) = true.
+Proof. vm_compute. repeat split. Qed.
+
+(* ... and the run itself: the pinned sequence SetLinger(10); Close (repeated, as the relay does) *)
+Example linger10_delivers :
+  let f := srun sock0 (pre5 ++ ops_events (opsB tcp_final) ++ after5) in
+  opsB tcp_final = [CSetLinger 10; CClose; CSetLinger 10; CClose; CSetLinger 10; CClose] /\
+  s_got f = d5 /\ s_ph f = Ended PEof /\ s_linger f = Some 10%nat /\ s_fd_closed f = true.
+Proof. vm_compute. repeat split. Qed.
+
+(* the refuted variant: the same history with SetLinger(0) loses the three queued bytes, and the
+   peer sees a reset *)
+Example linger0_loses :
+  let f := srun sock0 (pre5 ++ ops_events [CSetLinger 0; CClose; CSetLinger 0; CClose] ++ after5) in
+  s_got f = [1; 2] /\ s_ph f = Ended PReset /\ written pre5 = d5.
+Proof. vm_compute. repeat split. Qed.
+
+(* a peer that does NOT drain within the linger time: reset after 10 seconds, the rest is lost
+   (the documented purpose of the constant: "we force the socket to close after 10 seconds") *)
+Example linger10_expires :
+  let f := srun sock0 (pre5 ++ ops_events (close_ops KTcp) ++ Deliver 1 :: repeat Tick 10 ++ [Deliver 9]) in
+  s_got f = [1; 2; 3] /\ s_ph f = Ended PReset.
+Proof. vm_compute. repeat split. Qed.
+
+(* CloseWrite: no time limit *)
+Example closewrite_delivers :
+  let f := srun sock0 (pre5 ++ [Op SCloseWrite] ++ repeat Tick 30 ++ [Deliver 9]) in
+  s_got f = d5 /\ s_ph f = Ended PEof /\ s_fd_closed f = false /\ s_wr_shut_call f = true.
+Proof. vm_compute. repeat split. Qed.
+
+(* the correspondence functions accept what the unchanged code shows and reject the l = 0 socket *)
+Example probe_chk :
+  chk_tcp_ops ((true, true, 10, false, false, true), (true, true, 10, false, false, true)) = true /\
+  chk_tcp_ops ((true, true, 0, false, false, true), (true, true, 10, false, false, true)) = false /\
+  chk_tcp_ops ((true, true, 10, false, true, false), (true, true, 10, false, false, true)) = false /\
+  chk_tcp_slow (true, 6291456, 6291456, 6291456, true, 1200) = true /\
+  chk_tcp_slow (true, 6291456, 3191808, 6291456, false, 400) = false /\
+  chk_tcp_slow (false, 6291456, 3191808, 6291456, false, 10400) = true.
+Proof. vm_compute. repeat split. Qed.
+
+(* a whole relay run on TCP connections, composed with the socket: the client's 3 bytes (two reads,
+   the second together with EOF) are what the covert peer receives, and what is counted *)
+Definition su_tcp : tscript := {| t_reads := [(ab, None); (c_, Some EOF)]; t_writes := []; t_dls := []; t_cdst := None; t_csrc := None; t_csrc_blocks := false |}.
+Definition ctcp : cfg := let c := run (init_cfg_k KTcp KTcp 0 su_tcp empty_ts) (repeat TUp 9) in run c (round_robin (measure c)).
+Example relay_on_tcp :
+  let f := srun sock0 ([Op (SWrite ab); Op (SWrite c_)] ++ ops_events (opsB ctcp) ++ [Tick; Deliver 2; Tick; Deliver 5]) in
+  finished ctcp = true /\ delivered (th_acc (up ctcp)) = ab ++ c_ /\ counted (th_acc (up ctcp)) = 3 /\
+  s_got f = ab ++ c_ /\ s_ph f = Ended PEof.
 Proof. vm_compute. repeat split. Qed.
